@@ -21,10 +21,31 @@ def run(ctx):
     ctx.evaluations += len(recs)
     ctx.nontrivial += len({lc.keyof(r) for r in recs if lc.moved(r)})
     ctx.extra["layers_checked"] = sum(len(r["layers"]) for r in recs)
+    end_to_end(ctx, recs)
     for r, m in zip(recs, meta):
         if m == "random" and lc.moved(r) and len(r["labels"]) <= 5:
             ctx.sample({"kind": m, "record": r})
             break
+
+
+def end_to_end(ctx, recs):
+    """The composed operational model (spec/Layout.tla: Distributor -> per-layer optimum -> rounding, with the list order, the stable
+    sort by target, round-half-even and the way a wall gives way) predicts the complete output of Force.compute() from labels and
+    options alone; every fresh lattice layout is compared item by item.  Drift only."""
+    import json
+    quick = ctx.tier == "quick"
+    sub = [r for r in recs if r["lattice"] == 1 and r.get("fresh") == 1 and r["U"] == 4 and len(r["labels"]) <= (14 if quick else 25)][::(2 if quick else 1)]
+    res, st = core.validate_records("LayoutDrift", "LayoutDrift.cfg", sub, per_shard=300, heap="3g")
+    ctx.states += st["distinct"]
+    ctx.transitions += st["generated"]
+    drift = sorted({i for i, inv in res if inv.startswith("Drift_")})
+    partial = {i for i, inv in res if inv == "Info_FullyCompared"}
+    ctx.extra["end_to_end_model_conformance"] = {
+        "layouts_compared": len(sub), "predicted_completely_by_Layout.tla": len(sub) - len(partial - set(drift)) - len(drift),
+        "predicted_up_to_an_ambiguous_layer": len(partial - set(drift)), "spec_drift": len(drift)}
+    if drift:
+        ctx.notes.append("spec drift: %d layouts are not reproduced by the end-to-end model (first: %s)"
+                         % (len(drift), json.dumps({k: sub[drift[0]][k] for k in ("opts", "labels")})[:400]))
 
 
 def replay(path):
